@@ -133,6 +133,11 @@ type myInts []int
 type myMap map[int]string
 type myArr [3]int
 
+// a pointer type that implements error: a nil *myE stored in an error interface is a non-nil error
+type myE struct{}
+
+func (*myE) Error() string { return "myE" }
+
 type myErr struct{}
 
 func (myErr) Error() string { return "e" }
@@ -280,7 +285,7 @@ const unpack = "a, b, c, u, v, p, q, s, t, k, l, xs, bs, tm := i.A, i.B, i.C, i.
 	"\t_, _, _, _, _, _, _, _, _, _, _, _, _, _ = a, b, c, u, v, p, q, s, t, k, l, xs, bs, tm\n" +
 	"\tms, mi, mm, ma := myStr(s), myInts(xs), myMap{0: s, 1: t}, myArr{a, b, c}\n\tpa, w := &ma, &wr{}\n\tgxs, gf, gn = nil, hi, 0\n" +
 	"\tmf, mg, mc, mc2 := myF(p), myF(q), myC(complex(p, q)), myC(complex(q, p))\n\tfa := [2]myF{mf, mg}\n\tw.g = mg\n" +
-	"\tvv, it := val{a}, &iter{}\n" +
+	"\tvv, it := val{a}, &iter{}\n\tvar pe *myE\n\tif k {\n\t\tpe = &myE{}\n\t}\n\t_ = pe\n" +
 	"\t_, _, _, _, _, _, _, _, _, _, _, _, _ = ms, mi, mm, ma, pa, w, mf, mg, mc, mc2, fa, vv, it\n"
 
 func caseFunc(kind, body string) string {
@@ -393,6 +398,9 @@ func Grid(r *rand.Rand, text string, max int) []Input {
 	}
 	if used["mi"] {
 		used["xs"] = true
+	}
+	if used["pe"] {
+		used["k"] = true
 	}
 	if used["vv"] || used["val"] {
 		used["a"] = true
